@@ -1,11 +1,12 @@
 import TdModel.Model.C24Replay
-import TdModel.Gen.C25
+import TdModel.Model.C25Cfg
 open TdModel TdModel.Rpc
 
-/-- One request line = one whole observed trace; the repairs' presence comes from the regenerated facts. -/
+/-- One request line = one whole observed trace; the model follows the shape of the source as
+regenerated on this run (`C25.cfg`). -/
 def handle (line : String) : String :=
   match words line with
-  | "replay" :: _ => handleReplay Facts.C25.guardPresent Facts.C25.recheckPresent line
+  | "replay" :: _ => handleReplay C25.cfg line
   | _ => "bad-op"
 
 def main : IO Unit := runDriver handle
